@@ -194,8 +194,7 @@ def view_of(case, el):
             try:
                 pairs = list(to_pairs(raw))
                 keys = [k for k, _ in pairs]
-                view["raw"] = {"t": "pairs", "keys": [k for k in keys if isinstance(k, str)],
-                               "non_text": any(not isinstance(k, str) for k in keys)}
+                view["raw"] = {"t": "pairs", "keys": [_jval(k) for k in keys]}
             except TypeError:
                 view["raw"] = {"t": "notIterable"}
             except ValueError:
@@ -434,8 +433,8 @@ def documented(case, el):
             return None, None
         allowed = set(b["fields"])
         if given is None:
-            # items that are not pairs: the input does not name the declared fields; certainly no exception
-            return "no-raise", None
+            # items that are not pairs: like a raw value that is not iterable — deemed valid
+            return True, None
         gs = set(given)
         unexpected = gs - allowed
         missing = allowed - gs
@@ -869,7 +868,7 @@ class C15(Property):
     title = "built-in validators decide their documented predicate and explain failures"
     proof_module = "Proofs.C15"
     theorems = ["Flatland.C15.Proofs." + t for t in (
-        "decides_partial", "C15_full_fails", "setWith_nontext_key_raises", "setWith_bad_pairs_raises",
+        "decides", "C15_full", "setWith_nontext_key_reported", "setWith_bad_pairs_valid",
         "value_preserved", "messages", "messages_total", "false_verdict_records_one", "true_verdict_records_nothing",
         "verdict_shape",
         "luhn_pairs_eq_digits", "luhn10Check_eq", "notdup_first_kept",
@@ -897,7 +896,7 @@ class C15(Property):
     level_text = "proof"
     level_note = ("partial: the per-class decision theorems, Luhn equivalence, first-occurrence, value preservation and message theorems are proved for all "
                   "inputs on model A; IsEmail/URLValidator/HTTPURLValidator/URLCanonicalizer are modelled for control flow only (urlparse/idna opaque) and "
-                  "rest on correspondence; the full statement C15_Full is refuted by D-C15-7 (MapEqual default transform), with D-C15-5/6 as further witnesses")
+                  "rest on correspondence; the full statement C15_Full is proved (the former exceptions D-C15-5/6/7 are fixed in /repo)")
     technique = "Lean 4 model + theorems (refinement to the documented predicate per class) + differential correspondence + Python oracle"
     rule = ("every validator class x random parameterisations x String/Integer/Boolean elements set with None / adapted / unadapted text / blank / never set, "
             "List/Array with 0-5 members, members with duplicates at random positions, Dicts set with dict / pairs / flat / non-iterable / malformed raw values, "
@@ -921,15 +920,20 @@ class C15(Property):
         # 88e2ca0 Luhn10 on a negative number
         out.append({"v": {"cls": "Luhn10"}, "build": {"kind": "Integer", "name": "cc", "set": -5}})
         out.append({"v": {"cls": "Luhn10"}, "build": {"kind": "Integer", "name": "cc", "set": 4111111111111111}})
-        # open: D-C15-5 (raw items that are not pairs), D-C15-6 (a key that is not text)
+        # fixed 5e93603 (D-C15-5: raw items that are not pairs), 7308ea3 (D-C15-6: a key that is not text)
         out.append({"v": {"cls": "SetWithKnownFields"}, "build": {"kind": "Dict", "name": "d", "fields": ["a", "b"], "raw": {"t": "str", "s": "abc"}}})
         out.append({"v": {"cls": "SetWithAllFields"}, "build": {"kind": "Dict", "name": "d", "fields": ["a", "b"], "raw": {"t": "triples"}}})
         out.append({"v": {"cls": "SetWithKnownFields"}, "build": {"kind": "Dict", "name": "d", "fields": ["a"],
                                                                  "raw": {"t": "dict", "pairs": [[{"int": 1}, "x"]]}}})
-        # open: D-C15-7 MapEqual's default transform is a plain function in the class body
+        # fixed e508833 (D-C15-7): MapEqual's default transform was a plain function in the class body
         out.append({"v": {"cls": "MapEqual", "field_paths": ["a", "b"]},
                     "build": {"kind": "fields", "name": "form", "fields": [{"name": "a", "type": "String", "set": "x"},
                                                                            {"name": "b", "type": "String", "set": "x"}]}})
+        out.append({"v": {"cls": "MapEqual", "field_paths": ["a", "b"]},
+                    "build": {"kind": "fields", "name": "form", "fields": [{"name": "a", "type": "Integer", "set": "1"},
+                                                                           {"name": "b", "type": "Integer", "set": "01"}]}})
+        out.append({"v": {"cls": "SetWithAllFields"}, "build": {"kind": "Dict", "name": "d", "fields": ["a"],
+                                                               "raw": {"t": "dict", "pairs": [["a", "x"], [{"int": 1}, "x"], ["1", "y"]]}}})
         return [finish(c) for c in out]
 
     def exhaustive(self, tier):
@@ -967,6 +971,8 @@ class C15(Property):
             return False
         if view.get("canon") and not ok(view["canon"]["v"]):
             return False
+        if any(not ok(k) for k in (view.get("raw") or {}).get("keys", [])):
+            return False
         if case["v"]["cls"] in ("HTTPURLValidator", "URLCanonicalizer", "IsEmail") and \
                 not (view.get("value") is None or isinstance(view.get("value"), str)):
             return False  # urlparse / str methods on a number: outside the modelled domain
@@ -980,17 +986,7 @@ class C15(Property):
         return oracle_case(case)
 
     def classify(self, case, failure):
-        v = case["v"]
-        if v["cls"] == "MapEqual" and failure.get("clause") == "returns-a-verdict-without-raising" \
-                and failure.get("observed") == "TypeError":
-            return "D-C15-7"
-        if v["cls"] in ("SetWithKnownFields", "SetWithAllFields") and failure.get("clause") == "returns-a-verdict-without-raising":
-            raw = case["view"].get("raw", {})
-            if raw.get("t") == "badPairs" and failure.get("observed") == "ValueError":
-                return "D-C15-5"
-            if raw.get("t") == "pairs" and raw.get("non_text") and failure.get("observed") == "TypeError":
-                return "D-C15-6"
-        return None
+        return None  # no open finding for C15 (D-C15-5/6/7 are fixed in /repo)
 
     def nontrivial(self, case, obs):
         return obs.get("raise") is None
